@@ -29,14 +29,18 @@ def read_cache(mapper, path, records_per_chunk):
     local = local_cache_location(mapper.root, path)
 
     if local.is_file():
-        return decode(local.read_text(), records_per_chunk=records_per_chunk, mapper=mapper)
+        content = local.read_text()
+    elif remote in mapper:
+        content = mapper[remote].decode()
+    else:
+        raise CachingError(f"no cache found for {path}")
 
-    if remote in mapper:
-        return decode(
-            mapper[remote].decode(), records_per_chunk=records_per_chunk, mapper=mapper
-        )
-
-    raise CachingError(f"no cache found for {path}")
+    # a cache file that was only partially written (interrupted or concurrent cache
+    # creation) must not break opening: treat it as missing
+    try:
+        return decode(content, records_per_chunk=records_per_chunk, mapper=mapper)
+    except (ValueError, KeyError, TypeError, AttributeError) as e:
+        raise CachingError(f"invalid cache file for {path}") from e
 
 
 def create_cache(mapper, path, data):
